@@ -237,6 +237,36 @@ func rulesC11(c *Ctx) {
 				case f.Name() == "(*StreamableHTTPHandler).closeAll":
 					c.Check(held, key, f, w, "closeAll clears the table under h.mu")
 				default:
+					// a request path may take the session it terminates out of the table itself (so that requests arriving while
+					// Close drains get 404) — but only the session the request was admitted to: the removal is a delete of the id
+					// that lookupSession (existence + owner check) has just accepted, and the session is then closed on every path
+					// (an entry removed without Close is a session that is neither reachable nor ever reaped)
+					del, isCall := w.(*ast.CallExpr)
+					if f.Lit == nil && isCall && f.BuiltinName(del) == "delete" && len(del.Args) == 2 && f.ParamWhere(isHTTPResponseWriter) != nil {
+						fg := f.Graph()
+						wv := fg.VertexOf(w)
+						keyObj := f.ObjOf(del.Args[1])
+						admitted := false
+						for _, lv := range fg.callVertices(lookup) {
+							as, isAs := fg.Node(lv).(*ast.AssignStmt)
+							if !isAs || len(as.Lhs) != 2 {
+								continue
+							}
+							lcalls := f.CallsIn(as, lookup, false)
+							if len(lcalls) != 1 || len(lcalls[0].Args) != 3 {
+								continue
+							}
+							okv := f.ObjOf(as.Lhs[1])
+							if keyObj != nil && okv != nil && f.ObjOf(lcalls[0].Args[2]) == keyObj && fg.Dominates(lv, wv) &&
+								hasAtom(fg.GuardsAt(wv), func(a Atom) bool { return a.Val && f.ObjOf(a.E) == okv }) {
+								admitted = true
+							}
+						}
+						closeObj := c.FnObj(pM, "ServerSession", "Close")
+						closed := fg.allPathsPass(wv, func(v int) bool { return fg.Node(v) != nil && f.ContainsCall(fg.Node(v), closeObj) })
+						c.Check(held && admitted && closed, key, f, w, "a request removes a session from the table only after lookupSession admitted it for that very id (existence and owner check passed; a removal in front of the check lets any user erase another user's session while being answered 403), under h.mu, and then closes it on every path (held=%v admitted=%v closed=%v)", held, admitted, closed)
+						break
+					}
 					c.Fail(key, f, w, "unexpected writer of the session table")
 				}
 			}
@@ -380,15 +410,43 @@ func rulesC11(c *Ctx) {
 			}
 		}
 		c.MustPin("startPOST sites", n, 2, "a POST path no longer holds the session against its idle timer (startPOST/endPOST)")
-		refs, timer := c.Field(pM, "sessionInfo", "refs"), c.Field(pM, "sessionInfo", "timer")
-		k := c.guardedFields("timer-state", []*types.Var{refs, timer}, "sessionInfo.timerMu", func(f *Func, sel *ast.SelectorExpr) string {
-			if f.Name() == "(*StreamableHTTPHandler).serveStatefulPOST" && f.baseIsLocalAlloc(sel) {
+		// the idle-timer state is found by role: the struct (sessionInfo itself, or a struct it embeds by value/pointer as a
+		// field) that holds the *time.Timer; its integer field is the count of POSTs in flight, its Duration the timeout,
+		// its mutex the lock
+		refs, timer, timeoutF, timerLock := c11timerState(c)
+		c.Need(refs != nil && timer != nil && timeoutF != nil && timerLock != "", "sessionInfo: idle-timer state (a *time.Timer with its count, timeout and mutex)")
+		k := c.guardedFields("timer-state", []*types.Var{refs, timer}, timerLock, func(f *Func, sel *ast.SelectorExpr) string {
+			// before the session is inserted into the table
+			beforeInsert := func(f *Func, at ast.Node, base ast.Expr) bool {
+				if f.Name() != "(*StreamableHTTPHandler).serveStatefulPOST" || !c11baseLocalAlloc(f, base) {
+					return false
+				}
 				g := f.Graph()
-				// before the session is inserted into the table
 				for _, w := range f.FieldWrites(f.Body, sessionsF, false) {
-					if g.ReachableFrom(g.VertexOf(sel))[g.VertexOf(w)] && !g.ReachableFrom(g.VertexOf(w))[g.VertexOf(sel)] {
-						return "constructor: the sessionInfo is not yet in the table"
+					if g.ReachableFrom(g.VertexOf(at))[g.VertexOf(w)] && !g.ReachableFrom(g.VertexOf(w))[g.VertexOf(at)] {
+						return true
 					}
+				}
+				return false
+			}
+			if beforeInsert(f, sel, sel.X) {
+				return "constructor: the sessionInfo is not yet in the table"
+			}
+			// the same constructor step as a method of the timer state: every call of the method is made on the sessionInfo
+			// under construction, before it is inserted
+			if f.Lit == nil && f.Recv() != nil && f.Obj != nil && f.ObjOf(sel.X) == types.Object(f.Recv()) {
+				calls, all := 0, true
+				for _, cf := range c.funcsWithLits(pM) {
+					for _, call := range cf.CallsIn(cf.Body, f.Obj, false) {
+						calls++
+						fs, isSel := ast.Unparen(call.Fun).(*ast.SelectorExpr)
+						if !isSel || !beforeInsert(cf, call, fs.X) {
+							all = false
+						}
+					}
+				}
+				if calls > 0 && all {
+					return "constructor: the method is only called on a sessionInfo that is not yet in the table"
 				}
 			}
 			return ""
@@ -397,7 +455,87 @@ func rulesC11(c *Ctx) {
 		// startPOST and endPOST are judged by what they do for a given number of POSTs already in flight, not by how the
 		// test is spelled: the branch conditions are evaluated with refs = that number (adjusted by the ++/-- that precede
 		// the test), timeout > 0 and an existing timer; everything else is unknown and follows both edges
-		timeoutF := c.Field(pM, "sessionInfo", "timeout")
+		// startPOST/endPOST may hand the work to one routine that takes the direction as a constant argument
+		// (adjust(+1) / adjust(-1)): the routine is then judged with its parameters bound to those constants
+		bind := map[types.Object]int64{}
+		var ival func(f *Func, g *Graph, before int64, e ast.Expr, at int, depth int) (int64, bool)
+		refsChange := func(f *Func, g *Graph, w ast.Node) (int64, bool) {
+			switch st := w.(type) {
+			case *ast.IncDecStmt:
+				if st.Tok == token.INC {
+					return 1, true
+				}
+				return -1, true
+			case *ast.AssignStmt:
+				if len(st.Rhs) == 1 && len(st.Lhs) == 1 && (st.Tok == token.ADD_ASSIGN || st.Tok == token.SUB_ASSIGN) {
+					if v, ok := ival(f, g, 0, st.Rhs[0], -1, 1); ok {
+						if st.Tok == token.SUB_ASSIGN {
+							v = -v
+						}
+						return v, true
+					}
+				}
+			}
+			return 0, false
+		}
+		ival = func(f *Func, g *Graph, before int64, e ast.Expr, at int, depth int) (int64, bool) {
+			if depth > 4 {
+				return 0, false
+			}
+			if v, ok := f.ConstInt(e); ok {
+				return v, true
+			}
+			if o := f.ObjOf(e); o != nil {
+				if v, ok := bind[o]; ok {
+					if len(f.writesToVar(f.Body, o, true)) > 0 {
+						return 0, false
+					}
+					return v, true
+				}
+			}
+			if f.IsField(e, timeoutF) {
+				return 1 << 40, true
+			}
+			if f.IsField(e, refs) {
+				if at < 0 {
+					return 0, false
+				}
+				v := before
+				for _, w := range f.FieldWrites(f.Body, refs, false) {
+					d, ok := refsChange(f, g, w)
+					if !ok {
+						return 0, false
+					}
+					wv := g.VertexOf(w)
+					if wv == at || !g.Dominates(wv, at) {
+						if g.ReachableFrom(wv)[at] {
+							return 0, false // changed on some paths only
+						}
+						continue
+					}
+					v += d
+				}
+				return v, true
+			}
+			// a local that holds a copy (prev := refs): its single definition, evaluated where it is made
+			if id, ok := ast.Unparen(e).(*ast.Ident); ok && at >= 0 {
+				if lv, isV := f.ObjOf(id).(*types.Var); isV && !lv.IsField() {
+					var def *Write
+					n := 0
+					for _, w := range Writes(f.Body, true) {
+						if f.ObjOf(w.LHS) == types.Object(lv) {
+							n++
+							w := w
+							def = &w
+						}
+					}
+					if n == 1 && def.RHS != nil {
+						return ival(f, g, before, def.RHS, g.VertexOf(def.Stmt), depth+1)
+					}
+				}
+			}
+			return 0, false
+		}
 		countLeaf := func(f *Func, g *Graph, before int64) func(ast.Expr) tri {
 			cmp := func(v int64, op token.Token, z int64) tri {
 				var r bool
@@ -433,37 +571,13 @@ func rulesC11(c *Ctx) {
 				if !ok {
 					return triUnknown
 				}
-				z, isZ := f.ConstInt(y)
-				if !isZ {
+				at := g.VertexOf(x)
+				xv, okX := ival(f, g, before, x, at, 0)
+				yv, okY := ival(f, g, before, y, at, 0)
+				if !okX || !okY {
 					return triUnknown
 				}
-				if f.IsField(x, timeoutF) {
-					return cmp(1<<40, op, z)
-				}
-				if f.IsField(x, refs) {
-					v := before
-					xv := g.VertexOf(x)
-					for _, w := range f.FieldWrites(f.Body, refs, false) {
-						id, isID := w.(*ast.IncDecStmt)
-						if !isID {
-							return triUnknown
-						}
-						wv := g.VertexOf(w)
-						if wv == xv || !g.Dominates(wv, xv) {
-							if g.ReachableFrom(wv)[xv] {
-								return triUnknown // changed on some paths only
-							}
-							continue
-						}
-						if id.Tok == token.INC {
-							v++
-						} else {
-							v--
-						}
-					}
-					return cmp(v, op, z)
-				}
-				return triUnknown
+				return cmp(xv, op, yv)
 			}
 		}
 		timeCall := func(f *Func, g *Graph, name string) func(int) bool {
@@ -479,7 +593,7 @@ func rulesC11(c *Ctx) {
 		incDec := func(f *Func, g *Graph, tok token.Token) func(int) bool {
 			return func(v int) bool {
 				for _, w := range f.FieldWrites(g.Node(v), refs, false) {
-					if id, isID := w.(*ast.IncDecStmt); isID && id.Tok == tok {
+					if d, ok := refsChange(f, g, w); ok && ((d == 1 && tok == token.INC) || (d == -1 && tok == token.DEC)) {
 						return true
 					}
 				}
@@ -500,7 +614,7 @@ func rulesC11(c *Ctx) {
 			}
 			return some
 		}
-		ep := c.Fn(pM, "sessionInfo", "endPOST")
+		ep := c11delegate(c, c.Fn(pM, "sessionInfo", "endPOST"), bind)
 		eg := ep.Graph()
 		nReset := 0
 		for v := range eg.node {
@@ -528,7 +642,10 @@ func rulesC11(c *Ctx) {
 			}
 		}
 		c.Check(okDec, "endPOST:always-uncounts", ep, nil, "endPOST decrements refs on every path (timeout set, timer alive)")
-		st := c.Fn(pM, "sessionInfo", "startPOST")
+		for o := range bind {
+			delete(bind, o)
+		}
+		st := c11delegate(c, c.Fn(pM, "sessionInfo", "startPOST"), bind)
 		sg := st.Graph()
 		okPause := allExitsBehind(sg, countLeaf(st, sg, 0), timeCall(st, sg, "Stop"))
 		c.Check(okPause, "startPOST:first-POST-stops-the-timer", st, nil, "when no other POST is running (refs = 0 before the call) every path of startPOST stops the idle timer")
@@ -541,7 +658,10 @@ func rulesC11(c *Ctx) {
 		c.Check(okInc, "startPOST:always-counts", st, nil, "startPOST counts the POST on every path (timeout set, timer alive), whether or not it had to stop the timer")
 		// stopTimer (called when the session goes away) stops the timer and forgets it, unconditionally once it exists: a timer
 		// that stays in the field is re-armed by the endPOST of a request that was still in flight when the session closed
-		stp := c.Fn(pM, "sessionInfo", "stopTimer")
+		for o := range bind {
+			delete(bind, o)
+		}
+		stp := c11delegate(c, c.Fn(pM, "sessionInfo", "stopTimer"), bind)
 		tg := stp.Graph()
 		okStop := false
 		for _, t := range tg.edgesWhere(func(a Atom) bool {
@@ -594,7 +714,7 @@ func rulesC11(c *Ctx) {
 			c.Check(ok, "idle-timer-callback", sp, call, "the idle timer's callback does nothing but close the session (which removes it from the table through onClose)")
 			// the timer is armed with the configured timeout: either the option itself, or the per-session field after it was
 			// assigned (an AfterFunc evaluated before that assignment is armed with 0 and fires at once, under the first POST)
-			toF := c.Field(pM, "sessionInfo", "timeout")
+			toF := timeoutF
 			optF := c.Field(pM, "StreamableHTTPOptions", "SessionTimeout")
 			okDur := sp.IsField(call.Args[0], optF)
 			if sp.IsField(call.Args[0], toF) {
@@ -902,4 +1022,114 @@ func flagSetUnderMethod(f *Func, method types.Object) types.Object {
 		}
 	}
 	return out
+}
+
+// c11timerState finds the idle-timer state of a session by role: the struct — sessionInfo, or the struct type of one
+// of its fields — that declares a *time.Timer; in it the integer field (POSTs in flight), the time.Duration (timeout)
+// and the sync.Mutex (whose lock class is "<struct>.<field>").
+func c11timerState(c *Ctx) (refs, timer, timeout *types.Var, lock string) {
+	si := c.P.LookupType(pM, "sessionInfo")
+	if si == nil {
+		return
+	}
+	cands := []*types.Named{si}
+	for _, f := range structFields(si) {
+		if n := namedOf(f.Type()); n != nil && n.Obj().Pkg() != nil && n.Obj().Pkg().Path() == modPath+"/"+pM {
+			if _, isS := n.Underlying().(*types.Struct); isS {
+				cands = append(cands, n)
+			}
+		}
+	}
+	isStd := func(t types.Type, pkg, name string) bool {
+		n := namedOf(t)
+		return n != nil && n.Obj().Pkg() != nil && n.Obj().Pkg().Path() == pkg && n.Obj().Name() == name
+	}
+	for _, n := range cands {
+		var r, tm, to, mu *types.Var
+		for _, f := range structFields(n) {
+			switch {
+			case isStd(f.Type(), "time", "Timer"):
+				tm = f
+			case isStd(f.Type(), "time", "Duration"):
+				if to == nil {
+					to = f
+				}
+			case isStd(f.Type(), "sync", "Mutex") || isStd(f.Type(), "sync", "RWMutex"):
+				if mu == nil {
+					mu = f
+				}
+			default:
+				if b, ok := f.Type().Underlying().(*types.Basic); ok && b.Info()&types.IsInteger != 0 && r == nil {
+					r = f
+				}
+			}
+		}
+		if tm != nil && r != nil && to != nil && mu != nil {
+			return r, tm, to, n.Obj().Name() + "." + mu.Name()
+		}
+	}
+	return
+}
+
+// c11delegate: when f does nothing but call one SDK routine with constant integer arguments (or none), the routine is
+// what the rule has to judge; its parameters are bound to those constants.
+func c11delegate(c *Ctx, f *Func, bind map[types.Object]int64) *Func {
+	for depth := 0; depth < 2; depth++ {
+		if f.Body == nil || len(f.Body.List) != 1 {
+			return f
+		}
+		es, ok := f.Body.List[0].(*ast.ExprStmt)
+		if !ok {
+			return f
+		}
+		call, ok := es.X.(*ast.CallExpr)
+		if !ok {
+			return f
+		}
+		fn := f.Callee(call)
+		if fn == nil || fn.Pkg() == nil || fn.Pkg().Path() != modPath+"/"+pM {
+			return f
+		}
+		var target *Func
+		for _, g := range c.P.FuncsIn(pM) {
+			if g.Obj != nil && g.Obj.Origin() == fn {
+				target = g
+			}
+		}
+		if target == nil || target.Body == nil {
+			return f
+		}
+		ps := target.NonRecvParams()
+		if len(ps) != len(call.Args) {
+			return f
+		}
+		vals := make([]int64, len(ps))
+		for i, a := range call.Args {
+			v, ok := f.ConstInt(a)
+			if !ok {
+				return f
+			}
+			vals[i] = v
+		}
+		for i, p := range ps {
+			bind[p] = vals[i]
+		}
+		c.touch(target)
+		f = target
+	}
+	return f
+}
+
+// c11baseLocalAlloc: e is a chain of field selections on a local variable that was allocated in this function.
+func c11baseLocalAlloc(f *Func, e ast.Expr) bool {
+	for {
+		switch x := ast.Unparen(e).(type) {
+		case *ast.SelectorExpr:
+			e = x.X
+		case *ast.Ident:
+			return f.baseIsLocalAlloc(&ast.SelectorExpr{X: x, Sel: x})
+		default:
+			return false
+		}
+	}
 }
